@@ -65,28 +65,63 @@ class ObsError(Exception):
     """the implementation returned something outside the observation format"""
 
 
+CONTAINER_MARK = "\ue000"     # a container value travels through the model as an opaque string
+
+
+def enc_value(v):
+    """injective text for a (possibly nested) Python value: type tags keep list / tuple / set / dict and
+    int / bool / float / str apart"""
+    if v is None:
+        return "N"
+    if isinstance(v, bool):
+        return "bT" if v else "bF"
+    if isinstance(v, int):
+        return "i%d" % v
+    if isinstance(v, float):
+        return "f%r" % v
+    if isinstance(v, str):
+        return "s%r" % v
+    if isinstance(v, list):
+        return "[" + ",".join(enc_value(x) for x in v) + "]"
+    if isinstance(v, tuple):
+        return "(" + ",".join(enc_value(x) for x in v) + ")"
+    if isinstance(v, (set, frozenset)):
+        return "<" + ",".join(sorted(enc_value(x) for x in v)) + ">"
+    if isinstance(v, dict):
+        return "{" + ",".join(sorted(enc_value(k) + ":" + enc_value(x) for k, x in v.items())) + "}"
+    raise ObsError("value outside the observed alphabet: %r" % (v,))
+
+
+def py_value(v):
+    """attribute value of a case: JSON scalar, or {"py": "<expression>"} for containers"""
+    if isinstance(v, dict) and set(v) == {"py"}:
+        return eval(v["py"], {"__builtins__": {"set": set}})
+    return v
+
+
 def _cv(v, strict=True):
-    """canonical attribute / cell value.  strict: a float stays a float (tag F) -- only the pandas
-    observations fold NaN into null and integral floats into ints (a float64 column is what pandas
-    makes of an int column with missing cells)."""
+    """canonical attribute / cell value.  strict: an integral float stays a float (tag F) -- only the
+    pandas observations fold NaN into null and integral floats into ints (a float64 column is what
+    pandas makes of an int column with missing cells)."""
     if v is None:
         return ["N"]
-    if hasattr(v, "item") and not isinstance(v, (str, bytes)):   # numpy scalar
-        v = v.item()
+    if hasattr(v, "item") and not isinstance(v, (str, bytes)) and not isinstance(v, (list, tuple, dict, set)):
+        v = v.item()                                              # numpy scalar
     if isinstance(v, bool):
         return ["B", v]
     if isinstance(v, int):
         return ["I", v]
     if isinstance(v, float):
-        if strict:
-            return ["F", repr(v)]
-        if math.isnan(v):
-            return ["N"]
-        if v == int(v):
-            return ["I", int(v)]
-        raise ObsError("non-integral float %r" % v)
+        if not strict:
+            if math.isnan(v):
+                return ["N"]
+            if v == int(v):
+                return ["I", int(v)]
+        return ["F", repr(v)]
     if isinstance(v, str):
         return ["S", v]
+    if isinstance(v, (list, tuple, dict, set, frozenset)):
+        return ["S", CONTAINER_MARK + enc_value(v)]
     raise ObsError("value outside the observed alphabet: %r" % (v,))
 
 
@@ -122,7 +157,7 @@ def _build(case):
         right_only = case.get("right_only", False)
 
         def gob(t):
-            n = BinaryNode(t[0], **{k: v for k, v in t[1]})
+            n = BinaryNode(t[0], **{k: py_value(v) for k, v in t[1]})
             kids = [gob(k) for k in t[2]]
             if len(kids) == 2:
                 n.left, n.right = kids
@@ -140,7 +175,7 @@ def _build(case):
     from bigtree.node.node import Node
 
     def go(t, parent):
-        kw = {k: v for k, v in t[1]}
+        kw = {k: py_value(v) for k, v in t[1]}
         n = Node(t[0], sep=sep, **kw) if parent is None else Node(t[0], parent=parent, **kw)
         for k in t[2]:
             go(k, n)
@@ -262,13 +297,18 @@ def run_impl(prop, case):
         return rebuilt("rt_pl", construct.polars_to_tree(export.tree_to_polars(root, all_attrs=True), sep=sep,
                                                          duplicate_name_allowed=dup))
 
+    no_polars = any(k in POLARS_UNFIT for _, _, n in t_nodes(case["tree"]) for k, _ in n[1])
     for key, f in (("dict", ex_dict), ("nested", ex_nested), ("df", ex_df), ("pl", ex_pl)):
-        obs[key] = _guard(f)
+        obs[key] = obs["df"] if (key == "pl" and no_polars) else _guard(f)
     for key, f in (("df", ex_df), ("nested", ex_nested), ("dict", ex_dict)):
         if _guard(f) != obs[key]:
             raise ObsError("exporting the same tree a second time gives a different " + key + " export")
     for key, f in (("rt_dict", rt_dict), ("rt_nested", rt_nested), ("rt_df", rt_df), ("rt_pl", rt_pl)):
-        obs[key] = _guard(f)
+        if key == "rt_pl" and no_polars:
+            obs[key] = obs["rt_df"]
+            seps["rt_pl"] = seps.get("rt_df")
+        else:
+            obs[key] = _guard(f)
     obs["seps"] = [seps.get(k) if obs[k] is not None else None for k in ("rt_dict", "rt_nested", "rt_df", "rt_pl")]
     for s_ in obs["seps"]:
         if s_ is not None and not isinstance(s_, str):
@@ -292,9 +332,12 @@ def cval(v):
         return "VBool " + cbool(v[1])
     if k == "S":
         return "VStr " + cstr(v[1])
-    if k == "F":                       # a float where the model has none: never equal to a model value
+    if k == "F":
         f = float(v[1])
-        return f"VFloat ({int(f)}) 1" if f == f and abs(f) < 1e15 and f == int(f) else "VFloat 0 0"
+        if f != f or f in (float("inf"), float("-inf")):
+            return "VFloat 0 0"
+        num, den = f.as_integer_ratio()
+        return f"VFloat ({num}) ({den})"
     raise ValueError(v)
 
 
@@ -303,7 +346,7 @@ def crec(items):
 
 
 def ctree(t):
-    attrs = clist(cpair(cstr(k), cval(_cv(v))) for k, v in t[1])
+    attrs = clist(cpair(cstr(k), cval(_cv(py_value(v)))) for k, v in t[1])
     return f"T None {cstr(t[0])} {attrs} {clist(ctree(k) for k in t[2])}"
 
 
@@ -364,7 +407,19 @@ ATTR_TYPES = {
     "_h": lambda r: r.choice([1, 2]),
     "Z9": lambda r: r.choice(["p", "q"]),
     "b": lambda r: r.choice([5, 6]),
+    # non-integral floats (an integral float is indistinguishable from an int once pandas has seen it)
+    "fl": lambda r: r.choice([0.5, -1.25, 2.75]),
+    # containers, incl. empty ones; one kind per key
+    "ls": lambda r: {"py": r.choice(["[1, 2]", "[]", "[7]"])},
+    "dc": lambda r: {"py": r.choice(["{'k': 1}", "{'k': 5}"])},
+    "ed": lambda r: {"py": "{}"},
+    "st": lambda r: {"py": r.choice(["{3}", "{4}", "set()"])},
+    "tp": lambda r: {"py": r.choice(["(1, 'x')", "()", "(2,)"])},
+    "nx": lambda r: {"py": r.choice(["[1, [2, 'x'], {'k': [0]}]", "[[], {}]", "{'a': [1, (2, 3)], 'b': {'c': None}}"])},
 }
+# polars cannot hold these kinds in one column (tuples of mixed types, ragged nesting): the two polars
+# entry points are not called for a tree carrying them
+POLARS_UNFIT = ("tp", "nx")
 OUT_KEYS = ["A", "b c", "x1", "age", "w", "Q"]
 
 
@@ -682,7 +737,9 @@ def sample(prop, case, obs):
 
 def rule(prop):
     return ("random Node trees (2-11 nodes; shapes wide/deep/mixed/path/star; name pools distinct/repeated/affix/special; "
-            "separators / \\ - . | and, in 30 % of the cases, -> :: => // -|-; typed attributes incl. falsy values, nulls, a private one, different attribute sets per node; "
+            "separators / \\ - . | and, in 30 % of the cases, -> :: => // -|-; typed attributes incl. falsy values, nulls, a private one, floats, container values (list/dict/set/tuple/nested, also empty), "
+            "different attribute sets per node; the two polars entry points are not called for trees carrying tuples or ragged "
+            "nested containers (polars itself refuses such columns); "
             "12 % built from BinaryNode with empty left/right slots) x random start node x random option sets "
             "(name/parent/path keys incl. empty, child_key, attr_dict incl. missing attribute and key collision, all_attrs, max_depth, "
             "skip_depth, leaf_only), each run ON ONE TREE OBJECT through the four exporters (three of them twice, results must "
@@ -730,8 +787,10 @@ def partial_clauses(prop):
         "pandas observations (tree_to_dataframe rows, tree rebuilt by dataframe_to_tree) fold NaN into null and integral floats "
         "into ints, because pandas itself turns an int column with missing cells into float64; every other observation is strict",
         "path round trips are compared only for trees in which no name contains the separator (outside, paths collide and the "
-        "outcome depends on pandas' rendering of cells); never generated: attribute values other than int/str/bool/None (floats, "
-        "containers, mutable values), non-str names, attribute names that are Node members, negative depths, custom Node "
+        "outcome depends on pandas' rendering of cells); attribute values drawn: int, str, bool, None, non-integral floats, and "
+        "(as opaque values of the model) lists, dicts, sets, tuples, nested containers incl. empty ones, one kind per attribute key; "
+        "never generated: NaN and integral floats as attribute values (pandas cannot tell them from a missing cell / an int), "
+        "mixed kinds under one key, non-str names, attribute names that are Node members, negative depths, custom Node "
         "subclasses / node_type=, explicit path_col / attribute_cols of the frame constructors, a constructor separator different "
         "from the tree's; multi-character separators are drawn in 30 % of the cases ('->', '::', '=>', '//', '-|-'), 80 % of "
         "them with letter-only names (the proved guard), 20 % with one name starting / ending with a separator character "
